@@ -89,7 +89,9 @@ type SafeCalculableBSlice[E btype.Integer | btype.Float] struct {
 }
 
 func (x *SafeCalculableBSlice[E]) Sum() E {
-	list := x.ToMetaSlice()
+	x.rwl.RLock()
+	defer x.rwl.RUnlock()
+	list := x.es.e
 	var r E
 	for _, e := range list {
 		r += e
@@ -98,18 +100,22 @@ func (x *SafeCalculableBSlice[E]) Sum() E {
 }
 
 func (x *SafeCalculableBSlice[E]) Avg() E {
+	x.rwl.RLock()
+	defer x.rwl.RUnlock()
 	var r E
-	list := x.ToMetaSlice()
+	list := x.es.e
 	ln := len(list)
 	for _, e := range list {
 		r += e
 	}
-	return x.Sum() / bternaryexpr.TernaryExpr(ln == 0, 1, E(ln))
+	return r / bternaryexpr.TernaryExpr(ln == 0, 1, E(ln))
 }
 
 func (x *SafeCalculableBSlice[E]) Max() E {
+	x.rwl.RLock()
+	defer x.rwl.RUnlock()
 	var r E
-	list := x.ToMetaSlice()
+	list := x.es.e
 	ln := len(list)
 	if ln != 0 {
 		r = list[0]
@@ -121,8 +127,10 @@ func (x *SafeCalculableBSlice[E]) Max() E {
 }
 
 func (x *SafeCalculableBSlice[E]) Min() E {
+	x.rwl.RLock()
+	defer x.rwl.RUnlock()
 	var r E
-	list := x.ToMetaSlice()
+	list := x.es.e
 	ln := len(list)
 	if ln != 0 {
 		r = list[0]
